@@ -8,7 +8,13 @@ Oracle = differential: nsf.neutron_composite_sld(materials, wavelength)(weights,
          nsf.neutron_sld({atom: sum_i w_i * count_i}, density, wavelength) - the second route the
          statement names - for the real, imaginary and incoherent SLD; every output has the shape of
          the wavelength argument whenever the result is not the vacuum; zero total weight or zero
-         density gives zeros (of any shape)."""
+         density gives zeros (of any shape).
+History = calls that follow other calls (only on calculators whose every single call was right): the caller keeps
+         ONE weight array and updates it in place (every ordered pair of states as consecutive calls), overwrites the
+         arrays it got back, and uses two calculators over the same materials alternately with the same array; every
+         call inside a history is judged against the record of the same (weights, density) from the first pass.
+Arguments = the materials list, the Formula objects, the wavelength argument and the weight array are compared with
+         their state before the call."""
 import itertools
 import math
 
@@ -655,6 +661,8 @@ def run(ctx):
     acc.info["max_list_length"] = maxlen
     acc.info["materials"] = list(MATERIALS)
     acc.info["wavelength_forms"] = list(FORMS_QUICK if ctx.quick else FORMS_THOROUGH)
+    acc.info["history_materials"] = list(WALK_MATERIALS)
+    acc.info["history_wavelength_forms"] = list(WALK_FORMS_QUICK if ctx.quick else FORMS_THOROUGH)
 
 
 def replay(ctx, case, signature=None):
